@@ -39,10 +39,17 @@ def ops_of(case_path):
     return ops
 
 
+# a case normally takes well under a second; an implementation that loops is given 120 s on the first three cases that time
+# out and 10 s afterwards, so that a hanging change costs minutes, not hours (every timed-out case is reported: <missing rc=-9>)
+_TIMED_OUT = [0]
+
+
 def run_case(args):
     case, l2, driver, outdir, env = args
     base = os.path.join(outdir, os.path.basename(case))
-    rc_i, impl = run_cmd([l2, case], env=env)
+    rc_i, impl = run_cmd([l2, case], env=env, timeout=120 if _TIMED_OUT[0] < 3 else 10)
+    if rc_i == -9:
+        _TIMED_OUT[0] += 1
     with open(base + ".impl", "w") as f:
         f.write(impl)
     rc_m, model = run_cmd([driver, "model", case])
